@@ -219,6 +219,45 @@ fn check_blocks(ctx: &Ctx, abs: &[ABlock], got: &[BdlBlock], skip_first: usize, 
     true
 }
 
+/// [+-]?digits[.digits][(e|E)[+-]digits]
+fn is_numeric_literal(t: &str) -> bool {
+    let b = t.as_bytes();
+    let mut i = 0;
+    if i < b.len() && (b[i] == b'+' || b[i] == b'-') {
+        i += 1;
+    }
+    let d0 = i;
+    while i < b.len() && b[i].is_ascii_digit() {
+        i += 1;
+    }
+    let mut digits = i - d0;
+    if i < b.len() && b[i] == b'.' {
+        i += 1;
+        let d1 = i;
+        while i < b.len() && b[i].is_ascii_digit() {
+            i += 1;
+        }
+        digits += i - d1;
+    }
+    if digits == 0 {
+        return false;
+    }
+    if i < b.len() && (b[i] == b'e' || b[i] == b'E') {
+        i += 1;
+        if i < b.len() && (b[i] == b'+' || b[i] == b'-') {
+            i += 1;
+        }
+        let d2 = i;
+        while i < b.len() && b[i].is_ascii_digit() {
+            i += 1;
+        }
+        if i == d2 {
+            return false;
+        }
+    }
+    i == b.len()
+}
+
 fn type_matches(written: &str, dbg: &str) -> bool {
     let canon = |s: &str| s.to_lowercase().replace(['-', '_'], "");
     canon(written) == canon(dbg)
@@ -643,6 +682,29 @@ pub fn run(ctx: &Ctx) -> i32 {
             _ => return, // unreadable originals are C19's business (they are listed there)
         };
         let lx = lex(&text);
+        // every attribute whose written value is a numeric literal must be recovered as that number
+        if let Ok(Ok(pb)) = catch(std::panic::AssertUnwindSafe(|| build_blocks(&text))) {
+            let mut used = vec![false; pb.len()];
+            for rb in lx.blocks.iter().filter(|b| !b.name.is_empty()) {
+                let Some(pi) = (0..pb.len()).find(|i| !used[*i] && pb[*i].name == rb.name && type_matches(&rb.btype, &format!("{:?}", pb[*i].btype))) else { continue };
+                used[pi] = true;
+                for (k, v) in &rb.attrs {
+                    let raw = v.trim().trim_matches('"');
+                    if is_numeric_literal(raw) {
+                        b.n += 1;
+                        let want = raw.parse::<f64>().unwrap() as f32;
+                        // the last occurrence of a repeated key wins in the parser
+                        if rb.attrs.iter().filter(|(k2, _)| k2 == k).count() > 1 {
+                            continue;
+                        }
+                        match pb[pi].attrs.get_f32(k) {
+                            Ok(got) if got == want || (got.is_infinite() && want.is_infinite()) => {}
+                            other => ctx.violation("real-file:numeric-attribute-not-a-number", &format!("{}: block {:?} attribute {} = {} is recovered as {:?}", path.rsplit('/').next().unwrap(), rb.name, k, raw, other.ok()), json!({"part": "real-file", "file": path, "block": rb.name, "attribute": k, "written": raw})),
+                        }
+                    }
+                }
+            }
+        }
         for k in 0..nlay {
             let bits = if nlay == 32 { k } else { [0b00000, 0b11111, 0b10101, 0b01010][k] };
             let re = reprint(&lx, bits & 1 != 0, if bits & 2 != 0 { "\t" } else { "      " }, bits & 4 != 0, bits & 8 != 0, bits & 16 != 0);
@@ -715,7 +777,7 @@ pub fn run(ctx: &Ctx) -> i32 {
     ctx.outcome_merge(&outcomes);
     ctx.finish(
         "model_checking",
-        &format!("project documents (every supported block type; 3 abstract variants: all attributes / mandatory only / legacy LIDER) printed in the full product of layout switches {{LF,CRLF}} x attribute order{{file,reversed,rotated}} x number format{{shortest, %.6f, right-aligned}} x words{{bare,quoted}} x lists{{one line, broken after commas, closing paren alone}} x comments/blank lines{{none, between, inside}} x indentation{{none, tab, 12 spaces + trailing blanks}} x preamble{{none, LIDER}} = 1296 layouts: build_blocks recovers name, type, parent and every attribute value (numbers exactly, lists through extract_*vec), Data::new's typed elements carry the written values / documented defaults; parent tracking on all sequences of length 2..{} over 11 block kinds and all prefixes of all cyclic rotations of the document; {} real files re-printed by an independent lexer in {} uniform layouts must parse to Debug-identical Data; KyG (old/new columns x ./, x 0..2 windows) and tbl (0..3 elements x 0..3 spaces x quoting) printers", depth, files.len(), nlay),
+        &format!("project documents (every supported block type; 3 abstract variants: all attributes / mandatory only / legacy LIDER) printed in the full product of layout switches {{LF,CRLF}} x attribute order{{file,reversed,rotated}} x number format{{shortest, %.6f, right-aligned, exponent with explicit sign}} x words{{bare,quoted}} x lists{{one line, broken after commas, closing paren alone}} x comments/blank lines{{none, between, inside}} x indentation{{none, tab, 12 spaces + trailing blanks}} x preamble{{none, LIDER}} = 1728 layouts: build_blocks recovers name, type, parent and every attribute value (numbers exactly, lists through extract_*vec), Data::new's typed elements carry the written values / documented defaults; parent tracking on all sequences of length 2..{} over 11 block kinds and all prefixes of all cyclic rotations of the document; {} real files re-printed by an independent lexer in {} uniform layouts must parse to Debug-identical Data, and every attribute of a real file whose written value is a numeric literal must be recovered as that number; KyG (old/new columns x ./, x 0..2 windows) and tbl (0..3 elements x 0..3 spaces x quoting) printers", depth, files.len(), nlay),
         true,
         json!({}),
     )
